@@ -369,6 +369,10 @@ def gen_lop(rng, n, api=True):
         args = [S(rng.choice(["", "-", "，"]))]
     elif m == "合并":
         args = [L([gen_val(rng, 1, api) for _ in range(rng.randrange(0, 3))]) for _ in range(rng.randrange(0, 3))]
+        if api and rng.random() < 0.4:
+            # the receiver itself among the arguments: 以A（合并：B、A） is A ++ B ++ A with the A of before the call
+            for _ in range(rng.choice([1, 1, 2])):
+                args.insert(rng.randrange(0, len(args) + 1), {"t": "self"})
     elif m in ("包含", "寻找"):
         args = [gen_val(rng, 2, api, nodict2=True)]
     elif m == "交换":
@@ -395,7 +399,7 @@ def est_len(n, o):
         if m in ("左移", "右移"):
             return max(0, n - 1)
         if m == "合并":
-            return n + sum(len(a["v"]) for a in o["args"] if a["t"] == "list")
+            return n + sum(len(a["v"]) for a in o["args"] if a["t"] == "list") + n * sum(1 for a in o["args"] if a["t"] == "self")
     return n
 
 
@@ -539,6 +543,64 @@ def hash_row(row):
     return (len(row) & 65535) + ((a & 4294967295) << 16) + ((b & 4294967295) << 48)
 
 
+def val_of_dump(d):
+    """harness dump -> generator value (None when the number has no spelling in the model's number type)"""
+    import struct
+    t = d.get("t")
+    if t == "null":
+        return NULL
+    if t == "bool":
+        return B(d["v"])
+    if t == "str":
+        return {"t": "str", "v": list(d["v"])}
+    if t == "num":
+        x = struct.unpack(">d", bytes.fromhex(d["bits"]))[0]
+        if x != x:
+            return NAN
+        if x in (float("inf"), float("-inf")):
+            return INF(x < 0)
+        if abs(x) >= 2.0 ** 62:
+            return BIG(x < 0)
+        if x == int(x):
+            return N(int(x))
+        if x * 2 == int(x * 2):
+            import math
+            return H(math.floor(x))
+        return None
+    if t == "list":
+        items = [val_of_dump(x) for x in d["v"]]
+        return None if any(i is None for i in items) else L(items)
+    if t == "dict":
+        items = [(k, val_of_dump(x)) for k, x in d["v"]]
+        return None if any(v is None for _, v in items) else {"t": "dict", "v": [[list(k), v] for k, v in items]}
+    return None
+
+
+def resolve_self(kind, cases, outs):
+    """the receiver passed as an argument ({"t":"self"}) is spelled out for the model as the collection the implementation held
+    before that step: up to the first disagreement (which is what gets reported) that is the model's own collection"""
+    if kind != "list":
+        return cases
+    res = []
+    for c, o in zip(cases, outs):
+        if not any(a.get("t") == "self" for op in c["ops"] for a in op.get("args", [])):
+            res.append(c)
+            continue
+        steps = o.get("steps") if isinstance(o, dict) else None
+        ops = []
+        for j, op in enumerate(c["ops"]):
+            if any(a.get("t") == "self" for a in op.get("args", [])):
+                prev = L(c["init"])
+                if j > 0:
+                    prev = val_of_dump(steps[j - 1]["state"]) if steps and j - 1 < len(steps) else L([])
+                if prev is None:
+                    prev = L([])
+                op = dict(op, args=[prev if a.get("t") == "self" else a for a in op["args"]])
+            ops.append(op)
+        res.append(dict(c, ops=ops))
+    return res
+
+
 def impl_rows(kind, out):
     """per step: (result encoding, state encoding, display encoding, raw result); dictionaries start with the
     freshly constructed collection"""
@@ -594,7 +656,8 @@ def eval_both(kind, cases, name, detail=True):
     One checksum per case is compared first; the first `detail` mismatching cases are re-evaluated with the full
     per-step encodings to locate the step (the others get step -1, aspect "unlocated")."""
     outs = core.harness(HARNESS, kind, [{"init": c["init"], "ops": c["ops"]} for c in cases])
-    hashes = coq_eval_cases(kind, cases, "(fun c => [run_%s_case_hh c])" % kind, name)
+    mcases = resolve_self(kind, cases, outs)
+    hashes = coq_eval_cases(kind, mcases, "(fun c => [run_%s_case_hh c])" % kind, name)
     res = []
     bad = []
     for n, (c, o, mh) in enumerate(zip(cases, outs, hashes)):
@@ -605,7 +668,7 @@ def eval_both(kind, cases, name, detail=True):
             bad.append(n)
     if detail and bad:
         sel = bad[:8 if detail is True else detail]
-        full = coq_eval_cases(kind, [cases[n] for n in sel], "run_%s_case" % kind, name + "f")
+        full = coq_eval_cases(kind, [mcases[n] for n in sel], "run_%s_case" % kind, name + "f")
         for n, m in zip(sel, full):
             rows = res[n][3]
             res[n][2] = m
@@ -719,6 +782,8 @@ def prog_ok_case(kind, case):
             return all(ok_val(x) and len(k) > 0 for k, x in v["v"])
         return True
     vals = list(case["init"]) if kind == "list" else [v for _, v in case["init"]]
+    if any(a.get("t") == "self" for o in case["ops"] for a in o.get("args", [])):
+        return False
     for o in case["ops"]:
         vals += [o[x] for x in ("i", "v") if x in o] + list(o.get("args", []))
     return all(ok_val(v) for v in vals)
